@@ -18,6 +18,7 @@ Exploration is depth first by re-execution from the start of the harness; the
 decision stack is kept across runs, one incremental solver per engine.
 """
 import ast
+import functools as _functools
 import fractions
 import re
 import string as _string
@@ -78,6 +79,8 @@ class Engine:
         self._model = None
         self.memo = {}
         self.names = set()
+        for entries in _MEMOS:
+            entries.clear()
 
     def finish_run(self):
         """advance DFS; return False when the decision tree is exhausted"""
@@ -1382,6 +1385,38 @@ def _is_plain_table(obj):
     return (type(obj) is dict and obj and not any(is_sym(x) for x in obj))
 
 
+_MEMOS = []     # caches created by the modelled functools.lru_cache / cache; emptied at the start of every path
+
+
+def sym_memo(fn):
+    """model of functools.lru_cache / functools.cache for functions called with symbolic arguments: the C implementation
+    hashes its arguments; this one keeps (arguments, result) pairs and compares the arguments with ==, which forks through
+    the engine.  The cached *object* is returned, as the real cache does (mutations of it are visible to later callers)."""
+    entries = []
+    _MEMOS.append(entries)
+
+    def eq(x, y):
+        if type(x) is tuple and type(y) is tuple:
+            return band(*[eq(a, b) for a, b in zip(x, y)]) if len(x) == len(y) else False
+        if is_sym(x) or is_sym(y):
+            return x == y
+        return type(x) is type(y) and x == y
+
+    def wrapper(*a, **kw):
+        key = (tuple(a), tuple(sorted(kw.items())))
+        for k, v in entries:
+            if eq(k, key):
+                return v
+        v = fn(*a, **kw)
+        entries.append((key, v))
+        return v
+    wrapper.cache_clear = lambda: entries.clear()
+    wrapper.__wrapped__ = fn
+    wrapper.__name__ = getattr(fn, '__name__', 'memo')
+    wrapper.__doc__ = getattr(fn, '__doc__', None)
+    return wrapper
+
+
 class SymSet:
     """a set display with symbolic elements ({a[0], b[0]}): elements kept pairwise distinct by forking on equality;
     comparisons and membership are decided element-wise (they fork through the engine)"""
@@ -1541,6 +1576,13 @@ class RT:
         return item in cont
 
     @staticmethod
+    def decorator(d):
+        import functools
+        if d is functools.lru_cache or d is getattr(functools, 'cache', None):
+            return sym_memo
+        return d
+
+    @staticmethod
     def mkset(items):
         items = list(items)
         if any(is_sym(x) or (type(x) is tuple and any(is_sym(y) for y in x)) for x in items):
@@ -1676,6 +1718,8 @@ class RT:
         for pred, handler in RT.call_hooks:
             if pred(f, a, kw):
                 return handler(f, a, kw)
+        if f is _functools.lru_cache:
+            return sym_memo(a[0]) if (a and callable(a[0])) else sym_memo
         if f is int and len(a) == 1 and not kw:
             x = a[0]
             if isinstance(x, SymStr):
@@ -1934,6 +1978,12 @@ class Rewriter(ast.NodeTransformer):
         pairs = ast.List(elts=[ast.Tuple(elts=[k, v], ctx=ast.Load())
                                for k, v in zip(node.keys, node.values)], ctx=ast.Load())
         return ast.copy_location(ast.Call(func=self._rt('mkdict'), args=[pairs], keywords=[]), node)
+
+    def visit_FunctionDef(self, node):
+        self.generic_visit(node)
+        node.decorator_list = [ast.copy_location(ast.Call(func=self._rt('decorator'), args=[d], keywords=[]), d)
+                               for d in node.decorator_list]
+        return node
 
     def visit_Set(self, node):
         self.generic_visit(node)
